@@ -6,7 +6,7 @@ Explorer B (verif/sched.py): explicit-state search over the completion orders of
 from __future__ import annotations
 
 import math
-from datetime import datetime
+from datetime import datetime, timedelta
 
 import numpy as np
 
@@ -61,7 +61,7 @@ def _configs(tier):
                     {"name": "SlewDistanceMinimization", "parameters": {}}]
 
     def add(name, n_sens, n_tgt, decision, start=START, steps=n_steps, dparams=None, cfg_over=None, reward=None,
-            far_target=False, **net):
+            far_target=False, events=None, **net):
         tg, ss = _network(n_sens, n_tgt, start, **net)
         if far_target:
             # last target sits 60 deg east: visible to none/one of the sites -> visibility rows differ between targets
@@ -69,7 +69,7 @@ def _configs(tier):
         eng = scen.engine(1, tg, ss, decision=decision, dparams=dparams)
         if reward == "cost":
             eng["reward"] = {"name": "CostConstrainedReward", "metrics": cost_metrics, "parameters": {}}
-        cfg = scen.config(start, steps + 1, [eng], seed=3)
+        cfg = scen.config(start, steps + 1, [eng], seed=3, events=events(start) if events else None)
         for k, v in (cfg_over or {}).items():
             cfg[k].update(v)
         out[name] = (cfg, steps)
@@ -103,6 +103,34 @@ def _configs(tier):
     add("munkres_2x2_output120", 2, 2, "MunkresDecision", steps=max(n_steps, 2) + 2, cfg_over={"time": {"output_step_sec": 120}})
     add("greedy_miss_output120", 2, 1, "MyopicNaiveGreedyDecision", steps=4, fov={"fov_shape": "conic", "cone_angle": 0.001},
         cfg_over={"noise": {"init_position_std_km": 200.0}, "time": {"output_step_sec": 120}})
+    # the engine's target / sensor lists CHANGE during the run (rows and columns of every matrix shift): a target whose
+    # id sorts FIRST is added at step 2, the then-middle target is removed at step 3, a sensor sorting first is added
+    def _set_changes(start):
+        def at(k):
+            return scen.iso(start + timedelta(seconds=60 * k))
+
+        return [
+            {"scope": "scenario_step", "scope_instance_id": 0, "start_time": at(2), "event_type": "target_addition",
+             "tasking_engine_id": 1, "target_agent": scen.target_eci(10000, *scen.overhead_orbit(start, *SUBPOINTS[3]))},
+            {"scope": "scenario_step", "scope_instance_id": 0, "start_time": at(3), "event_type": "agent_removal",
+             "tasking_engine_id": 1, "agent_id": 10001, "agent_type": "target"},
+        ]
+
+    def _sensor_changes(start):
+        def at(k):
+            return scen.iso(start + timedelta(seconds=60 * k))
+
+        return [
+            {"scope": "scenario_step", "scope_instance_id": 0, "start_time": at(2), "event_type": "sensor_addition",
+             "tasking_engine_id": 1, "sensor_agent": scen.ground_sensor(20000, *SITES[3], kind="adv_radar",
+                                                                         fov={"fov_shape": "conic", "cone_angle": 20.0}, slew_rate=3.0)},
+            {"scope": "scenario_step", "scope_instance_id": 0, "start_time": at(3), "event_type": "agent_removal",
+             "tasking_engine_id": 1, "agent_id": 20001, "agent_type": "sensor"},
+        ]
+
+    add("munkres_1x2_target_set_changes", 1, 2, "MunkresDecision", steps=4, events=_set_changes)
+    add("greedy_2x2_target_set_changes", 2, 2, "MyopicNaiveGreedyDecision", steps=3, events=_set_changes, reward="cost")
+    add("munkres_2x2_sensor_set_changes", 2, 2, "MunkresDecision", steps=3, events=_sensor_changes)
     add("munkres_1x2", 1, 2, "MunkresDecision")
     add("munkres_1x1", 1, 1, "MunkresDecision")
     if tier == "thorough":
